@@ -13,7 +13,7 @@ ASSUMPTIONS = [
 ]
 BOUNDS = {
     "quick": "HP: 0..8 nibbles x {terminated, not}; bytes<->nibbles <= 4 bytes / 8 nibbles; bit strings <= 3 bytes; key-path packing 0..20 bits (all residues mod 8 and mod 4); kv node paths 1..12 bits; parse_node rejection for lengths 0..3, 33, 34, 64, 65, 66 with symbolic content; hexary leaf/extension keys 0..6 nibbles; prefix kernels <= 3x3 nibbles",
-    "thorough": "HP 0..16 nibbles; bytes <= 8; bit strings <= 5 bytes; key-path 0..40 bits; kv paths 1..24; hexary keys 0..12 nibbles; prefix kernels <= 5x5",
+    "thorough": "HP 0..16 nibbles; bytes <= 5 (6-8 bytes: z3 does not answer within the query budget on the 256-entry table ite chains); bit strings <= 5 bytes; key-path 0..40 bits; kv paths 1..24; hexary keys 0..12 nibbles; prefix kernels <= 5x5",
 }
 OUTSIDE = "lengths beyond the bound"
 
@@ -32,7 +32,7 @@ def obligations(tier):
         add("hexary leaf node classifies and yields its key path", "h_hex_leaf", "b_hex_node", n=n)
         add("hexary extension node classifies and yields its key path", "h_hex_ext", "b_hex_node", n=n)
     add("blank / branch classification", "h_hex_other", "b_hex_other")
-    for n in range(0, (4 if q else 8) + 1):
+    for n in range(0, (4 if q else 5) + 1):
         add("nibbles_to_bytes(bytes_to_nibbles(b)) == b, nibble values", "h_bytes_nibbles", "b_bytes_nibbles", n=n)
         add("bytes_to_nibbles(nibbles_to_bytes(x)) == x", "h_nibbles_bytes", "b_nibbles_bytes", n=2 * n)
     add("nibble tables equal their closed forms", "h_tables", "b_tables")
